@@ -36,6 +36,18 @@ CHECKS = {
          "bounded-exhaustive enumeration of shapes x special values x precisions x formats on the real writer/reader, and of the complete producer x format x sink x consumer matrix on the real binary",
          "All 1 049 shapes with 1..6 axes, lengths 1..4 and <=24 cells filled from a 16-value special alphabet (+-0, subnormal, huge, NaN incl. a signalling payload, +-inf, 1/3) x precision 0..17 x {text, npy}: io::write::Builder bytes read back by Array::read_npy and the auto-detecting io::read::Builder (npy bit-identical, text within half a unit of the p-th decimal); every special value alone at every precision. At L2 the complete matrix producer{create,view,fold} x format x sink{stdout, -o fresh file, -o over a longer existing file} x consumer{view,fold,stat} x 6 spectra, and text->npy->text token identity for all 3-digit mantissas x 13 exponents x 4 precisions.",
          TRUST + "'All f64 values' is replaced by the special-value alphabet and all 3-digit mantissas; a printing defect for one specific other mantissa is outside the bound. The text oracle allows half an ulp for the decimal->binary rounding on reading.", "3 C07"),
+ "C09": ("exploration",
+         "complete enumeration of ordered labelled sample lists (and input column permutations) on the real sample-map / site-reader code and the real binary",
+         "All 7 888 ordered lists of distinct samples out of 4 with every labelling {unlabelled, A, B, C} (thorough: lists of <=4 out of 5 samples), on a 6-record call set whose sample columns are pairwise different so that every axis permutation and subset shows in the output: shape and every cell compared with a reference that assigns axis j to the j-th distinct label in list order. All 24 permutations of the input sample columns for every list of 3 samples and a slice (thorough: all) of 4. At L2 every list of 3 samples (and a slice / all of 4) as --samples and as --samples-file with byte-identical stdout; absent sample (also case-differing), empty and missing file must be errors with empty stdout.",
+         TRUST + "More than 4 populations / 5 samples and duplicate entries in a list are outside the alphabet (the latter is a C17 matter).", "3 C09"),
+ "C10": ("model_checking",
+         "exhaustive exploration of record-stream histories over a site-kind alphabet, each executed on the real binary and compared with a reference model",
+         "All record streams of length 0..3 (thorough 0..4) over a 9-symbol alphabet {counted, missing-in-p0, multiallelic, exactly-sufficient, insufficient-in-p0, insufficient-in-p1, ploidy-error, ploidy-error-after-a-missing-sample, corrupt-line} plus all length-4 (5) streams over a 5-symbol sub-alphabet, for 4 samples in 2 populations, x modes {default, --strict, --project-shape 3,3}: every failure kind is thereby placed at every position of the stream, before and after every other symbol. Oracle: the reference create for the spectrum; mass + reported skipped = records read, Y of 'Skipped X/Y' = records; failure at the first failing record in input order naming its contig:position (skips and ploidy errors); failing runs write nothing to stdout; a strict run without failing record is byte-identical to the default run.",
+         TRUST + "Streams longer than the bound are outside; C11 separately shows the per-record state is memoryless. The position named for an unparseable record is not checked (not promised).", "3 C10"),
+ "C11": ("model_checking",
+         "explicit-state BFS over the hidden per-record state of the real site::Reader (hook verif_state) with a differential and a reference oracle on every transition, plus all bounded histories",
+         "For three reader set-ups (no projection, projection to (2,2) and to (4,1) chromosomes; 2 populations x 2 samples) and an alphabet of 15 site kinds, breadth-first search from the initial state: a state is the canonical snapshot (counts, totals, number of skipped samples, projection scratch buffer) after a record was read and consumed; every transition calls the real read_site and requires the Site produced to be bit-identical to what a fresh reader produces for that kind and equal to the reference. The frontier empties (15/19/21 states), so the claim holds for histories of any length over the alphabet as far as the snapshot captures the state; in addition every history of length <=3 (thorough <=4) is executed and must accumulate to the sum of single-site contributions, and at L2 all (a third of) 720 permutations and 140 split points of a 6-record VCF, with and without projection.",
+         TRUST + "State outside the hook snapshot is covered only up to the history length bound. With projection, equality is up to 1e-9 (floating-point summation order).", "3 C11"),
  "C15": ("exploration",
          "exhaustive enumeration of header-length residues / shapes for the writer and of the dtype x byte-order x version x spelling matrix for the reader, judged by a strict NEP-1 parser and a numpy-written corpus",
          "Writer: Array::write_npy and `sfs view -O npy` for a shape family that hits every header length modulo 64 (measured: 64/64 residues) plus all 340 small shapes, each file checked field by field by a strict NPY 1.0 parser written from the specification (magic, version, LE length, 64-byte alignment, newline, ASCII, exact dict, LE doubles, no trailing bytes). Reader: 10 dtypes x byte orders x 3 versions x 1 200 header spellings (thorough 3 888) x 1-D/2-D with boundary values of every type, expected float64 bits computed from the decimal meaning; the committed corpus of 120 files written by numpy 2.4.6 compared with numpy's own astype('<f8') bytes, also end-to-end through the binary; Fortran order, unsupported dtypes, missing keys, bad magic/version must be rejected.",
